@@ -84,7 +84,16 @@ def check_history(job):
             tab = it.slots[op.args[0]]
             arg = it.slots[op.args[1].val]
             members = tab.columns if op.code == 51 else tab.indexes
-            first_eq = next((m for m in members if m == arg), None)
+            # the library detaches the argument before it searches the list: a column compares its table's name, so a
+            # detached column is equal to no attached sibling; the first member the search can stop at is computed the same way
+            saved_tab = getattr(arg, 'table', None)
+            try:
+                if op.code == 51 and any(arg is m for m in members):
+                    arg.table = None
+                first_eq = next((m for m in members if m == arg), None)
+            finally:
+                if op.code == 51 and any(arg is m for m in members):
+                    arg.table = saved_tab
             d23 = first_eq is not None and first_eq is not arg
         if op.code == 60 and isinstance(it.slots[op.args[0]], Table) and op.args[1] in (1, 2, 3) \
                 and any(it.slots[op.args[0]] is t for t in spec['tables']):
